@@ -329,6 +329,12 @@ pub fn subscribe_sink(root: &O, u: i64, w: &W, react: React, slot: Arc<Mutex<Opt
         let s = w1.lock().unwrap().sbj[0].clone();
         s.next(7);
       }
+      if react.sub_at < 0 && c == -react.sub_at {
+        // subscribe sink 3 to the connectable this callback is being called from
+        let o = w1.lock().unwrap().conn[0].observable();
+        let (wa, wb, wc) = (w1.clone(), w1.clone(), w1.clone());
+        o.subscribe(move |x| log(&wa, "cb", 3, "n", x, 0), move |e| log(&wb, "cb", 3, "e", payload(&e), 0), move || log(&wc, "cb", 3, "c", 0, 0));
+      }
       if c == react.sub_at {
         let s = w1.lock().unwrap().sbj[0].clone();
         let (wa, wb, wc) = (w1.clone(), w1.clone(), w1.clone());
